@@ -8,14 +8,15 @@ import sys
 ROOT = os.path.dirname(os.path.dirname(os.path.abspath(__file__)))
 res = json.load(open(f"{ROOT}/seeded/results.json"))
 first = {}
-if os.path.exists(f"{ROOT}/seeded/results_round3_first_run.json"):
-    first = json.load(open(f"{ROOT}/seeded/results_round3_first_run.json"))
+for _f in ("results_round3_first_run.json", "results_round4_first_run.json"):
+    if os.path.exists(f"{ROOT}/seeded/{_f}"):
+        first.update(json.load(open(f"{ROOT}/seeded/{_f}")))
 rows = []
 caught = 0
 first_counts = {}
 for seed in sorted(res):
     meta = json.load(open(f"{ROOT}/seeded/{seed}/meta.json"))
-    files = ", ".join(os.path.basename(f) for f in meta.get("files_touched", []))[:40]
+    files = ", ".join(os.path.basename(f) for f in (meta.get("files_touched") or meta.get("files") or []))[:40]
     best = None
     for prop, r in res[seed].items():
         if best is None or r.get("exit") == 1:
@@ -36,7 +37,7 @@ for seed in sorted(res):
     rows.append(f"| {seed} | {files} | {prop} | {fr or '-'} | {how} | {obl[:110]} |")
 table = ["| seed | touches | check | first run (fresh seeds only) | outcome now | failed obligation(s) |", "|------|---------|-------|------|---------|----------------------|"] + rows
 table.append("")
-table.append(f"Caught now (VIOLATION, exit 1): **{caught} of {len(res)}**.  First run of the {sum(first_counts.values())} fresh seeds (`-3`), before any check was touched: "
+table.append(f"Caught now (VIOLATION, exit 1): **{caught} of {len(res)}**.  First run of the {sum(first_counts.values())} fresh seeds (`-3`, `-4`), before any check was touched: "
              + ", ".join(f"{v} {k}" for k, v in sorted(first_counts.items())) + ".")
 text = "\n".join(table)
 if "--write" in sys.argv:
